@@ -306,6 +306,8 @@ func main() {
 				run.Violation("plain|deserialize|panic|"+vr.MsgClass(pm)+"|"+fr, id, rep)
 			} else if err != nil {
 				run.Violation("plain|deserialize|error", id+": "+err.Error(), rep)
+			} else if u == nil {
+				run.Violation("plain|deserialize|nothing-returned", id+": neither a message nor an error", rep)
 			} else if u.MsgID != serverID[mi] || !bytes.Equal(u.Msg, body) || u.GetSeqNo() != 0 {
 				run.Violation("plain|deserialize|fields-differ", id, rep)
 			}
